@@ -32,7 +32,7 @@ DIMS = dict(
 	coll=COLLS,
 	container=['array', 'list', 'annotated-array', 'annotated-list', 'list-mixed-element-dtypes'],
 	ids=['default', 'int64', 'ascii', 'unicode', 'bytes', 'uint8', 'object-array', 'numpy-str-array', 'numeric-strings', 'uint64-top', 'int64-negative', 'int32-ends', 'python-int-list'],
-	meta=['none', 'unicode', 'nested-extra', 'empty-strings', 'mixed-empty', 'id-attr-ncbi_id', 'id-attr-genbank_acc'],
+	meta=['none', 'unicode', 'nested-extra', 'empty-strings', 'mixed-empty', 'id-attr-ncbi_id', 'id-attr-genbank_acc', 'extra-odd-text'],
 	comp=['none', 'gzip0', 'gzip9', 'lzf', 'szip', 'gzip-default'],
 )
 FULL_K = [1, 4, 5, 8, 9, 16, 17, 32]
@@ -115,6 +115,10 @@ def make_meta(kind):
 		return SignaturesMeta(id='', name='', version='', id_attr='', description='', extra={})
 	if kind == 'mixed-empty':
 		return SignaturesMeta(id='x', name='', version=None, id_attr='key', description='', extra=dict(a=''))
+	if kind == 'extra-odd-text':
+		# text that is not well-formed Unicode (a surrogate-escaped file name), astral characters, control characters, very long strings, odd keys
+		return SignaturesMeta(id='o', extra={'file': 'caf\udce9.fasta', 'lone': ['\ud800', '\udfff x'], 'astral': '𝔊 😀', 'ctl': 'a\x00b\x1f\x7f', 'long': 'é' * 5000,
+		                                      'k e y \u2028': 1, '': 'empty key', 'num': [1e308, -0.0, 2 ** 53 + 1, 1e-320]})
 	if kind == 'unicode':
 		return SignaturesMeta(id='ïd/1', name='näme 中', version='1.0.ü', id_attr='refseq_acc', description='line\nbreak "q" , ü', extra={})
 	return SignaturesMeta(id='x', name='n', version='2', id_attr='key', description=None,
